@@ -184,14 +184,14 @@ func c04(r *Report, s *Sem) {
 		if !isStream(site.field) {
 			continue
 		}
-		ok := topLevel(site.fn) == a.receiver
+		ok := enclosedBy(site.fn, a.receiver)
 		r.Check(R4, "func "+fnName(site.fn)+" / send on "+site.field.Name(), p.instrPos(site.in), ok, "only the receiver goroutine may feed the inbound streams (nothing is delivered that was not received)")
 	}
 	closes := map[*types.Var]int{}
 	for _, site := range p.chanCloseSites(fns) {
 		if site.field == nil || (!isStream(site.field) && site.field != a.doneField) {
 			// the receiver closes `done` through its parameter: resolve by type below
-			if topLevel(site.fn) == a.receiver && site.field == nil {
+			if enclosedBy(site.fn, a.receiver) && site.field == nil {
 				closes[a.doneField]++
 			}
 			continue
